@@ -842,6 +842,44 @@ def mul_rules(prog, chk, pid):
         okapp = len(vals) == 2 and any(v is digit for v in vals) and any(is_const(v) and cval(v) == 0 for v in vals)
         ok = okshape and okodd and okd and okeven and okapp
         why = "NAF step is not: odd -> d = (mult mod 4 >= 2 ? mult mod 4 - 4 : mult mod 4), append d, mult = (mult - d)//2; even -> append 0, mult //= 2 (%s)" % s_n[:160]
+        if not ok:
+            # the same step written differently (one digit variable, a generator that yields the digits, ...): decided by evaluating the extracted step on a grid of
+            # scalars -- per iteration exactly one digit d in {-1, 0, 1} is emitted, d = 0 iff mult is even, mult = 2 * next + d and next is even whenever d != 0
+            from bfsa.evalterm import NoEval, eval_term
+
+            emits = apps + [e for e in rn.events if e.kind == "yield" and any(f[0] == "loop" and f[1] == lr.id for f in e.ctx)]
+            emits = [e for e in emits if any(f[0] == "loop" and f[1] == lr.id for f in e.ctx)]
+            bad_ = None
+            try:
+                for mv in list(range(1, 130)) + [255, 256, 257, 1023, 0xFFFF, 0x10001, (1 << 64) - 1, (1 << 64) + 1, (1 << 127) + 3, 3 * (1 << 90) + 7]:
+                    env_ = {m.uid: mv}
+                    active = []
+                    for e in emits:
+                        seen_loop = False
+                        holds = True
+                        for f in e.ctx:
+                            if f[0] == "loop" and f[1] == lr.id:
+                                seen_loop = True
+                                continue
+                            if seen_loop and f[0] == "if" and not (lr.cond is not None and f[1] is lr.cond):
+                                if bool(eval_term(f[1], env_)) != bool(f[2]):
+                                    holds = False
+                        if holds:
+                            active.append(e)
+                    if len(active) != 1:
+                        bad_ = "for mult = %d the step emits %d digits" % (mv, len(active))
+                        break
+                    d_ = eval_term(active[0].d["value"], env_)
+                    nx_ = eval_term(nxt, env_)
+                    if d_ not in (-1, 0, 1) or (d_ == 0) != (mv % 2 == 0) or mv != 2 * nx_ + d_ or (d_ != 0 and nx_ % 2 != 0):
+                        bad_ = "for mult = %d the step emits digit %r and continues with %r (want a digit of -1 / 0 / 1 with mult = 2 * next + digit, 0 exactly for even mult, and an even next after a non-zero digit)" % (mv, d_, nx_)
+                        break
+            except (NoEval, TypeError, KeyError) as e_:
+                bad_ = "the step is not an arithmetic function of mult (%s)" % (e_,)
+            if bad_ is None and emits:
+                ok, why = True, ""
+            elif bad_ is not None:
+                why = bad_
     chk.require(ok, P("mul-naf-digits"), fn.qualname if fn else "_naf", "d = mult mod 4 (3 -> -1) for odd mult else 0; mult = (mult - d) // 2", "%s:%d" % (fn.file, fn.lineno) if fn else "",
                 "the NAF digits satisfy mult = 2*mult' + d at every step (least significant digit first)", why)
     # ---- __mul__ NAF walk: most significant digit first, double then add +-P according to the digit's sign
